@@ -104,6 +104,8 @@ def gen_attempts(r: random.Random, cfg: dict, kn: dict, n: int) -> list[dict]:
         step = {"kind": kind, "cls": cls, "dur": _dur(r)}
         if kind == "res" and r.random() < kn.get("p_none_result", 0.12):
             step["none"] = True
+        if kind == "exc" and r.random() < kn.get("p_timeout_type", 0.1):
+            step["timeout_type"] = True
         if r.random() < kn.get("p_ra", 0.15):
             step["ra"] = r.choice(GRID)
         out.append(step)
